@@ -2,7 +2,8 @@
 
 Bounded-exhaustive enumeration of received bundles (every multiset of 0-2
 previous-node, 0-2 hop-count, 0-1 age and 0-1 unknown blocks x CRC types x
-block numbering x creation time zero/non-zero x route with/without MTU); each
+block numbering x creation time zero/non-zero x route with/without MTU x time
+held, and a sweep of primary-block field values); each
 is handed to a real agent whose route says "forward"; the octets that reach the
 convergence layer are decoded by the independent RFC 9171 decoder.'''
 import itertools
@@ -22,8 +23,8 @@ def cases():
     hops = [[], [(30, 2)], [(30, 2), (255, 23)]]
     ages = [None, 5000]
     unks = [None, b'\x01\x02']
-    for (pv, hp, age, unk, crc, numbering, ts0, mtu) in itertools.product(
-            prevs, hops, ages, unks, (0, 1, 2), ('dense', 'gaps', 'scrambled'), (False, True), (None, 4000)):
+    for (pv, hp, age, unk, crc, numbering, ts0, mtu, hold) in itertools.product(
+            prevs, hops, ages, unks, (0, 1, 2), ('dense', 'gaps', 'scrambled'), (False, True), (None, 4000), (0, 250)):
         if ts0 and age is None:
             # a bundle without a clock must carry an age block (RFC 9171 4.4.2)
             age_val = 5000
@@ -49,8 +50,39 @@ def cases():
         pri = dict(flags=B.FLAG_REQ_FORWARD, crc_type=crc, dest='dtn://far/app', src='dtn://src/', report_to='dtn://rpt/',
                    ts=((0, 3) if ts0 else (700000000000, 3)), lifetime=86400000)
         bundle = dict(primary=pri, blocks=ext + [dict(type=1, num=1, flags=0, crc_type=crc, data=b'forward-me')])
-        yield (dict(prev=len(pv), hop=len(hp), age=age_val, unk=unk is not None, crc=crc, numbering=numbering, ts0=ts0, mtu=mtu),
-               bundle)
+        yield (dict(prev=len(pv), hop=len(hp), age=age_val, unk=unk is not None, crc=crc, numbering=numbering, ts0=ts0, mtu=mtu,
+                    hold=hold), bundle)
+    yield from primary_cases()
+
+
+UINTS = [0, 1, 23, 24, 255, 256, 65535, 65536, 2 ** 32 - 1, 2 ** 32, 2 ** 64 - 1]
+FLAG_BITS = [0x4, 0x20, 0x40, 0x4000, 0x10000, 0x20000, 0x40000]
+
+
+def primary_cases():
+    '''Primary-block field values of the received bundle (boundary values of lifetime, every
+    subset of the non-structural flags with and without fragment fields, endpoint ID forms,
+    sequence numbers) on a fixed extension-block layout.'''
+    def mk(label, **over):
+        pri = dict(flags=0, crc_type=1, dest='dtn://far/app', src='dtn://src/', report_to='dtn://rpt/', ts=(700000000000, 3),
+                   lifetime=86400000)
+        pri.update(over)
+        ext = [dict(type=B.T_PREV_NODE, num=2, flags=0, crc_type=1, data=B.enc_prev_node('dtn://prev/')),
+               dict(type=B.T_HOP_COUNT, num=3, flags=0, crc_type=1, data=B.enc_hop_count(30, 2))]
+        bundle = dict(primary=pri, blocks=ext + [dict(type=1, num=1, flags=0, crc_type=1, data=b'forward-me')])
+        lab = dict(prev=1, hop=1, age=None, unk=False, crc=1, numbering='dense', ts0=False, mtu=None, hold=0)
+        lab.update(label)
+        return (lab, bundle)
+    for (life, dest, src, rpt, seq) in itertools.product(UINTS, ('dtn://far/app', 'ipn:5.6', 'dtn://far/a?b#c'), ('dtn://src/', 'ipn:7.1'),
+                                                         ('dtn://rpt/', 'dtn:none', 'ipn:8.0'), (0, 2 ** 32)):
+        yield mk(dict(primary='life=%d dest=%s src=%s rpt=%s seq=%d' % (life, dest, src, rpt, seq)),
+                 lifetime=life, dest=dest, src=src, report_to=rpt, ts=(700000000000, seq))
+    for mask in range(1 << len(FLAG_BITS)):
+        flags = sum(bit for (i, bit) in enumerate(FLAG_BITS) if mask >> i & 1)
+        yield mk(dict(primary='flags=%#x' % flags), flags=flags)
+        if not flags & 0x4:
+            yield mk(dict(primary='flags=%#x fragment' % (flags | B.FLAG_IS_FRAGMENT)), flags=flags | B.FLAG_IS_FRAGMENT,
+                     frag_offset=10, total_adu=100)
 
 
 def check_case(label, bundle, mtu, world=None):
@@ -60,6 +92,10 @@ def check_case(label, bundle, mtu, world=None):
     now_ms = world.clock.now_us // 1000 + 1704067200000 - 946684800000  # DTN time of the virtual clock
     data = B.encode(bundle)
     world.receive(data)
+    # time the bundle is held between reception and the idle callback that forwards it
+    hold = label.get('hold', 0)
+    world.clock.now_us += hold * 1000
+    now_ms += hold
     world.quiesce()
     out = []
 
@@ -90,7 +126,7 @@ def check_case(label, bundle, mtu, world=None):
     got = fwd[0]
     want_pri = B.strip(bundle)['primary']
     got_pri = B.strip(got)['primary']
-    for fld in ('version', 'flags', 'dest', 'src', 'report_to', 'ts', 'lifetime'):
+    for fld in ('version', 'flags', 'dest', 'src', 'report_to', 'ts', 'lifetime', 'frag_offset', 'total_adu'):
         if got_pri.get(fld, 7) != want_pri.get(fld, 7):
             bad('primary-field-changed', dict(field=fld), '%s: received %r, forwarded %r' % (fld, want_pri.get(fld), got_pri.get(fld)))
     if B.payload(got) != B.payload(bundle):
@@ -129,8 +165,8 @@ def check_case(label, bundle, mtu, world=None):
         rx_age = [B.dec_age(b['data']) for b in bundle['blocks'] if b['type'] == B.T_AGE]
         if len(ages) != 1:
             bad('age-block-lost-for-clockless-source', dict(), 'received age %r, forwarded bundle has %d age blocks' % (rx_age, len(ages)))
-        elif rx_age and B.dec_age(ages[0]['data']) < rx_age[0]:
-            bad('age-decreased', dict(), '%r -> %r' % (rx_age, B.dec_age(ages[0]['data'])))
+        elif rx_age and abs(B.dec_age(ages[0]['data']) - (rx_age[0] + hold)) > 1:
+            bad('age-does-not-add-time-held', dict(), 'received age %r, held %d ms, transmitted age %r' % (rx_age, hold, B.dec_age(ages[0]['data'])))
     # unknown blocks survive untouched
     for blk in bundle['blocks']:
         if blk['type'] == 199:
@@ -160,7 +196,7 @@ def run_chunk(params, known):
             if key not in kinds:
                 kinds.add(key)
                 violations.append(v)
-        if label['prev'] or label['hop'] or label['age'] or label['unk']:
+        if label['prev'] or label['hop'] or label['age'] or label['unk'] or label.get('primary'):
             keys.add(repr(sorted(label.items())))
         if not samples:
             samples.append(dict(label=label, received=B.encode(bundle).hex()))
@@ -174,7 +210,7 @@ def run_chunk(params, known):
 def history_menu():
     out = []
     for (label, bundle) in cases():
-        if label['mtu'] is None and label['crc'] in (0, 2) and label['numbering'] in ('dense', 'gaps') \
+        if label['mtu'] is None and not label.get('primary') and label['hold'] == 0 and label['crc'] in (0, 2) and label['numbering'] in ('dense', 'gaps') \
                 and (label['prev'], label['hop']) in ((0, 0), (1, 1), (2, 2)) and label['unk'] == (label['prev'] == 1):
             out.append((label, bundle))
     return out
@@ -220,7 +256,8 @@ def scenarios(tier):
 
 ASSUMPTIONS = [
     'received bundles carry 0-2 previous-node, 0-2 hop-count, 0-1 age and 0-1 unknown extension blocks',
-    'virtual clock fixed during one forwarding; age tolerance 1 ms',
+    'the bundle is held 0 or 250 ms (virtual clock) between reception and the idle callback that forwards it; age tolerance 1 ms',
+    'primary-block sweep on a fixed block layout: lifetime at every CBOR head-width boundary x three destination / two source / three report-to forms x two sequence numbers; every subset of seven non-structural flags, with and without fragment fields',
     'a bundle whose creation time is zero carries an age block (RFC 9171 4.4.2)',
 ]
 
